@@ -60,7 +60,7 @@ theorem WFP_combineStd {a b : ArrS} {groups : List (List Nat)} {newAxes : List N
     (hl1 : newAxes.length = groups.length) (hl2 : pipes.length = groups.length)
     (hgood : ∀ x ∈ newAxes.zip (groups.zip pipes), GoodPipe a x.2.1 x.2.2)
     (hnd : groups.flatten.Nodup)
-    (hb : a.combineStd groups newAxes pipes = some b) : WFP b := by
+    (hb : a.combineStd groups newAxes pipes = some b) : WFP b ∧ b.qtotal = a.qtotal := by
   unfold ArrS.combineStd at hb
   simp only at hb
   generalize hT : newAxes.zip (groups.zip pipes) = T at hgood hb
@@ -126,9 +126,10 @@ theorem WFP_combineStd {a b : ArrS} {groups : List (List Nat)} {newAxes : List N
             (selectCols nonComb r 0)) = T.foldl (rowStep r) (selectCols nonComb r 0) := fun r => rfl
       split at hb
       · simp only [Option.some.injEq] at hb; subst hb
-        exact WFP_of_rows hne h.mods_pos hok' h.qtotal_valid [] (by simp) List.Pairwise.nil true
+        exact ⟨WFP_of_rows hne h.mods_pos hok' h.qtotal_valid [] (by simp) List.Pairwise.nil true, rfl⟩
       · rename_i r hqd
         simp only [Option.some.injEq] at hb; subst hb
+        refine ⟨?_, rfl⟩
         apply WFP_of_rows hne h.mods_pos hok' h.qtotal_valid
         · intro r' hr'
           simp only [List.mem_singleton] at hr'
@@ -142,6 +143,7 @@ theorem WFP_combineStd {a b : ArrS} {groups : List (List Nat)} {newAxes : List N
           have := (sortRows_perm _).mem_iff.mp (dedupAdj_subset _ r' hr')
           obtain ⟨r, hr, rfl⟩ := List.mem_map.1 this
           exact ⟨r, hr, rfl⟩
+        refine ⟨?_, rfl⟩
         apply WFP_of_rows hne h.mods_pos hok' h.qtotal_valid
         · intro r' hr'
           obtain ⟨r, hr, rfl⟩ := hmem r' hr'
